@@ -170,6 +170,11 @@ def run(run, tier):
     tried, hits = residue_search(EoN, sim, tier)
     residue = report_residue(run, tried, hits)
     C.extra_props(run, 'C15', props, ['C15x'])
+    # 4. "the next node is drawn with probability rate/sum of current rates" rests on the weighted candidate structure that
+    # Gillespie_complex_contagion re-rates with insert(): its selection law is judged on the class itself (specification oracle of c16)
+    from . import c16
+    lawper = {}
+    c16.selection_law_part(run, 'C15', sim, run.rng, 500 if tier == 'quick' else 6000, lawper)
     if not props['ok']:
         run.violation('C15/proof', 'Props/C15.v no longer checks: %s' % props['log'][-400:], {'broken': 'coq/Props/C15.v', 'log': props['log']}, no_input=True)
     dist = dict(res.stats)
@@ -184,7 +189,7 @@ def run(run, tier):
                      'rows, histories, every user-callback call with the statuses it saw. Oracle: rates recomputed from scratch on the implementation\'s own trace. '
                      'Non-trivial = at least one event.' % (nrand, ', '.join(L.FAMILIES), [str(d) for d in delays], 3 if tier == 'quick' else 4, 3),
                      res.samples, {'distribution': dist, 'families': fams, 'mismatches': len(res.mism), 'oracle_failures': len(res.oracle_bad),
-                                   'float_residue_search': {'tables_x_orders_tried': tried, 'failing': len(hits), 'first': residue},
+                                   'selection_law': lawper, 'float_residue_search': {'tables_x_orders_tried': tried, 'failing': len(hits), 'first': residue},
                                    'exhaustive_part': 'all sampler paths on all graphs <=%d nodes' % (3 if tier == 'quick' else 4)})
     run.assumptions += ['random.expovariate(r) is exponential with rate r; choose_random selects proportionally to weight (C16); user functions are deterministic functions of (G, node, statuses)',
                         'hypotheses of the theorems: rates >= 0, influence set covers (influence_covers), nodes of G distinct']
@@ -194,6 +199,9 @@ def replay(rp):
     EoN = C.import_eon()
     import EoN.simulation as sim
     r = rp['replay']
+    if r.get('listdict'):
+        from . import c16
+        return c16.replay(rp)
     if r.get('kind') == 'float-residue':
         st, det, log = residue_run(EoN, sim, r['rates'], r['ranks'])
         print('rates', r['rates'], 'removal ranks', r['ranks'], '->', st, det)
